@@ -12,7 +12,8 @@
 // inequality only: gaps between calls >= the wait, no call begun after MaxElapsedTime, early give-up only when the
 // context can have ended).  Nothing here asserts an upper bound on real elapsed time.
 //
-// outs: f<k> = the call fails, s<k> = it succeeds, returning k messages; call i returns the messages with the UUIDs
+// outs: f<k> = the call fails (c<k>: with an error wrapping context.Canceled, d<k>: with its own time-out's DeadlineExceeded),
+// s<k> = it succeeds, returning k messages; call i returns the messages with the UUIDs
 // "i.0" … and, when it fails, the error object e<i>.
 package main
 
@@ -36,6 +37,8 @@ import (
 type outcome struct {
 	ok   bool
 	nout int
+	kind byte // of a failing call: 0/'f' = a plain error, 'c' = an error wrapping context.Canceled, 'd' = the call's own
+	// time-out (a context derived from the live message context) ran out: an error wrapping context.DeadlineExceeded
 }
 
 type tcase struct {
@@ -81,6 +84,8 @@ func (c tcase) inputs() string {
 		k := "f"
 		if o.ok {
 			k = "s"
+		} else if o.kind == 'c' || o.kind == 'd' {
+			k = string(o.kind)
 		}
 		outs[i] = k + strconv.Itoa(o.nout)
 	}
@@ -226,7 +231,21 @@ func runScenario(c tcase) []rec {
 		}
 		var err error
 		if !o.ok {
+			switch o.kind {
+			case 'c': // the handler reports a cancellation of something of its own; the message context is alive
+				err = fmt.Errorf("e%d: %w", i, context.Canceled)
+			case 'd': // the handler's own per-call time-out
+				cctx, ccancel := context.WithTimeout(f.ctx, time.Microsecond)
+				<-cctx.Done()
+				err = fmt.Errorf("e%d: %w", i, cctx.Err())
+				ccancel()
+			}
+			mu.Lock()
+			if err != nil && i < len(f.errs) {
+				f.errs[i] = err
+			}
 			err = f.errs[i%len(f.errs)]
+			mu.Unlock()
 		}
 		mu.Lock()
 		f.r.te = append(f.r.te, int64(time.Since(f.base)))
@@ -394,6 +413,7 @@ func runFiltered(c tcase, out *wh.Out) []rec {
 			break
 		}
 		out.Count("rerun.call_after_context_end")
+		out.Note("re-run (a call was made after the context ended): " + c.inputs())
 		rs = runScenario(c)
 	}
 	return rs
@@ -442,14 +462,14 @@ func parseCase(line string) (tcase, error) {
 			c.logger = kv[1] == "1"
 		case "outs":
 			for _, o := range strings.Split(kv[1], ",") {
-				if len(o) < 2 || (o[0] != 'f' && o[0] != 's') {
+				if len(o) < 2 || !strings.ContainsRune("fscd", rune(o[0])) {
 					return c, fmt.Errorf("outcome %q", o)
 				}
 				k, e := strconv.Atoi(o[1:])
 				if e != nil {
 					return c, e
 				}
-				c.outs = append(c.outs, outcome{o[0] == 's', k})
+				c.outs = append(c.outs, outcome{o[0] == 's', k, o[0]})
 			}
 		case "ctxend":
 			if kv[1] != "-" {
@@ -563,7 +583,8 @@ func generate(a wh.Args) []tcase {
 				}
 				initMs := int64(20 + 4*rng.Intn(6))
 				c := tcase{mr: mr, init: initMs * ms, max: 2 * initMs * ms, mulP: 1, mulQ: 1, rfA: int64(rng.Intn(2)), rfB: 2, hook: true,
-					outs: outsFor(t, okAt, nouts(rng)), cancel: j, sleepAt: -1, group: "cancel"}
+					outs: outsFor(t, okAt, nouts(rng)), cancel: j, sleepAt: -1, group: "cancel",
+					el: []int64{0, 10000 * ms, 3600000 * ms}[rng.Intn(3)]} // also with a (far) MaxElapsedTime: the derived context must still follow the message's
 				if j >= 2 { // keep the waits before the cancelling call short: 10·3^(j-1) ms only for the last one
 					c.init, c.max, c.mulP, c.rfA = 2*ms, 5000*ms, 3, 0
 					if j >= 4 {
@@ -594,12 +615,35 @@ func generate(a wh.Args) []tcase {
 					continue
 				}
 				c := tcase{mr: mr, init: 0, max: 0, mulP: []int64{1, 2}[rng.Intn(2)], mulQ: 1, rfA: int64(rng.Intn(2)), rfB: 2, hook: rng.Intn(6) > 0,
-					outs: outsFor(t, []int{t, t, j + 2}[rng.Intn(3)], nouts(rng)), cancel: j, ctxEnd: kind, sleepAt: -1, group: "cancel.zero"}
+					outs: outsFor(t, []int{t, t, j + 2}[rng.Intn(3)], nouts(rng)), cancel: j, ctxEnd: kind, sleepAt: -1, group: "cancel.zero",
+					el: []int64{0, 10000 * ms, 3600000 * ms}[rng.Intn(3)]}
 				if j >= 1 && rng.Intn(3) == 0 { // a first wait of 1 ms, then MaxInterval 0 makes every later wait 0
 					c.init = 1 * ms
 				}
 				cs = append(cs, c)
 			}
+		}
+	}
+
+	// (2c) the handler's errors are, or wrap, context.Canceled / context.DeadlineExceeded (its own per-call time-out, a
+	// cancelled sub-operation) while the message context is alive: they are failures like any other and are retried
+	for mr := 1; mr <= 8; mr++ {
+		t := calls(mr)
+		for v := 0; v < 4; v++ {
+			if !thorough && (mr+v)%2 == 1 {
+				continue
+			}
+			okAt := []int{t, t - 1, 2, 1}[v]
+			if okAt > t {
+				okAt = t
+			}
+			outs := outsFor(t, okAt, nouts(rng))
+			for i := range outs {
+				outs[i].kind = "cdcf"[(i+v+mr)%4]
+			}
+			outs[0].kind = "cd"[v%2]
+			cs = append(cs, tcase{mr: mr, init: []int64{0, 100 * us, 1 * ms}[rng.Intn(3)], max: 2 * ms, mulP: 2, mulQ: 1, rfA: int64(rng.Intn(2)), rfB: 2,
+				el: []int64{0, 0, 10000 * ms}[rng.Intn(3)], hook: true, outs: outs, cancel: -1, sleepAt: -1, group: "ctxerr"})
 		}
 	}
 
